@@ -49,6 +49,9 @@ func NewSparseConstInt32Vector(indices []int, values []int32, n int) SparseConst
   r.indices = indices[0:0]
   r.values = make([]int32, 0, len(values))
   for i, k := range indices {
+    if k < 0 {
+      panic("negative index")
+    }
     if k >= n {
       panic("index larger than vector dimension")
     }
